@@ -21,7 +21,7 @@
 (* partition columns re-inserted from  Recover(f.dir)  (percent-decoded,    *)
 (* parsed with the column type).                                            *)
 (*                                                                         *)
-(* Invariants (TLC, exhaustive over the scope in Demux.cfg):                *)
+(* Invariants (TLC, exhaustive over the scope NB, BL; cfg by lib/c25.py):    *)
 (*   Conservation   bag of Restore(all files) = bag of the consumed rows    *)
 (*   Placement      every file's directory is DirOfKey(key of each of its   *)
 (*                  rows) and decodes back to that key                      *)
